@@ -655,6 +655,67 @@ def n_dyn_weights():
     return f
 
 
+def n_pair(prod, foll):
+    """<producer violating a listed constraint (stays on the CPU)> -> <follower meeting every listed constraint>"""
+    def f(rng):
+        net = ng.Net("pair")
+        if prod == "conv_s4":
+            t = ng.conv2d(net, rng, _inp(net, (1, 16, 16, 8)), 8, (1, 1), (4, 1), (1, 1), "VALID", per_axis=False)
+        elif prod == "dw_s4":
+            t = ng.depthwise(net, rng, _inp(net, (1, 16, 16, 4)), (3, 3), (4, 4), (1, 1), "SAME", per_axis=False)
+        elif prod == "maxpool_s4":
+            t = ng.pool(net, rng, _inp(net, (1, 16, 16, 4)), "MAX_POOL_2D", (2, 2), (4, 4), "VALID")
+        elif prod == "avgpool_k9_same":
+            t = ng.pool(net, rng, _inp(net, (1, 20, 20, 4)), "AVERAGE_POOL_2D", (9, 9), (1, 1), "SAME")
+        elif prod == "add_bcast_bad":
+            a, b = _inp(net, (1, 8, 8, 4)), _inp(net, (1, 4, 8, 4))
+            t = net.tensor([1, 8, 8, 4], "int8", 0.1, 0)
+            net.op("ADD", [a, b], [t], dict(FusedActivationFunction=0))
+        elif prod == "fc_per_axis":
+            x = _inp(net, (1, 32))
+            wt = net.tensor([8, 32], "int8", [0.01 + 0.001 * i for i in range(8)], [0] * 8, ng._wdata(rng, [8, 32]), qdim=0)
+            t = net.tensor([1, 8], "int8", 0.1, 0)
+            net.op("FULLY_CONNECTED", [x, wt, None], [t], dict(FusedActivationFunction=0))
+        else:
+            raise ValueError(prod)
+        if foll in ("LOGISTIC", "TANH", "HARD_SWISH", "RELU", "RELU6"):
+            y = ng.unary(net, rng, foll, t)
+        elif foll == "LEAKY_RELU":
+            y = ng.unary(net, rng, "LEAKY_RELU", t, dict(Alpha=float(np.float32(0.1))))
+        elif foll == "CONV1x1":
+            y = ng.conv2d(net, rng, t, 4, (1, 1), per_axis=False)
+        elif foll == "ADD_SELF":
+            y = ng.elementwise(net, rng, "ADD", t, t)
+        elif foll == "MAXPOOL":
+            y = ng.pool(net, rng, t, "MAX_POOL_2D", (2, 2), (1, 1), "SAME")
+        else:
+            raise ValueError(foll)
+        net.output(y)
+        return net
+    return f
+
+
+PAIR_OPCODE = {"CONV1x1": "CONV_2D", "ADD_SELF": "ADD", "MAXPOOL": "MAX_POOL_2D"}
+PAIR_PRODUCER_OPCODE = {"conv_s4": "CONV_2D", "dw_s4": "DEPTHWISE_CONV_2D", "maxpool_s4": "MAX_POOL_2D", "avgpool_k9_same": "AVERAGE_POOL_2D",
+                        "add_bcast_bad": "ADD", "fc_per_axis": "FULLY_CONNECTED"}
+PAIRS = [("conv_s4", "LOGISTIC"), ("conv_s4", "TANH"), ("conv_s4", "HARD_SWISH"), ("conv_s4", "LEAKY_RELU"), ("conv_s4", "RELU"),
+         ("conv_s4", "CONV1x1"), ("conv_s4", "ADD_SELF"), ("dw_s4", "LOGISTIC"), ("dw_s4", "HARD_SWISH"), ("dw_s4", "MAXPOOL"),
+         ("maxpool_s4", "TANH"), ("maxpool_s4", "LEAKY_RELU"), ("maxpool_s4", "CONV1x1"), ("avgpool_k9_same", "LOGISTIC"),
+         ("avgpool_k9_same", "RELU6"), ("add_bcast_bad", "TANH"), ("add_bcast_bad", "HARD_SWISH"), ("add_bcast_bad", "ADD_SELF"),
+         ("fc_per_axis", "LOGISTIC"), ("fc_per_axis", "TANH")]
+
+
+def pair_nets():
+    out = []
+    for prod, foll in PAIRS:
+        oc = PAIR_OPCODE.get(foll, foll)
+        if oc == PAIR_PRODUCER_OPCODE[prod]:
+            oc += "#1"     # the second operator of that kind is the follower
+        out.append(("pair_%s_%s" % (prod, foll.lower()), n_pair(prod, foll), oc,
+                    "%s (violates a listed constraint) followed by %s (meets every listed constraint)" % (prod, foll)))
+    return out
+
+
 MX, AV = "MAX_POOL_2D", "AVERAGE_POOL_2D"
 RB, RN = "RESIZE_BILINEAR", "RESIZE_NEAREST_NEIGHBOR"
 # (name, builder, TFLite opcode of the operator under test, what it probes)
@@ -793,9 +854,25 @@ THOROUGH_ACCS = compiles.U55 + compiles.U65
 
 # ------------------------------------------------------------------------------------------------------------------
 # evaluation of "all listed constraints hold" on the source operator
-def eval_listed_real(path, opcode):
-    """reads the source model with Vela's reader and calls every constraint function the report lists for the
-    operator (semantic and supported-operator ones): [(sentence, True/False/'raises X', function name)], op name"""
+_real_cache = {}
+
+
+def eval_listed_real(path, opcode, out_name=None):
+    """constraint evaluation of the source operator with TFLite opcode `opcode` (the one producing tensor `out_name` when
+    given, else the first): (rows, type supported, output names)"""
+    if path not in _real_cache:
+        _real_cache.clear()
+        _real_cache[path] = eval_listed_real_all(path)
+    for oc, rows, sup, outs in _real_cache[path]:
+        if oc == opcode and (out_name is None or out_name in outs):
+            return [tuple(r) for r in rows], sup, outs
+    return None, False, None
+
+
+def eval_listed_real_all(path):
+    """reads the source model with Vela's reader and calls, for every operator, every constraint function the report lists
+    for it (semantic and supported-operator ones): [(opcode, [(sentence, True/False/'raises X', function name, order)],
+    type in supported_operators, output tensor names)]"""
     from ethosu.vela import model_reader
     from ethosu.vela.operation import Op
     from ethosu.vela.tflite_mapping import optype_to_builtintype
@@ -803,11 +880,10 @@ def eval_listed_real(path, opcode):
     with contextlib.redirect_stdout(io.StringIO()):
         nng, _ = model_reader.read_model(path, model_reader.ModelReaderOptions())
     lists, supported = live_lists()
+    res_all = []
     for sg in nng.subgraphs:
         for op in sg.get_all_ops():
             if op.type in (Op.Const, Op.Placeholder, Op.SubgraphInput):
-                continue
-            if optype_to_builtintype(op.type) != opcode:
                 continue
             sgc, ssc, ugc, usc = lists[op.type]
             out = []
@@ -822,8 +898,8 @@ def eval_listed_real(path, opcode):
                 except Exception as ex:
                     v = "raises %s" % type(ex).__name__
                 out.append((c.__doc__, v, c.__name__, order[id(c)]))
-            return out, op.type in supported, [t.name for t in op.outputs]
-    return None, False, None
+            res_all.append((optype_to_builtintype(op.type), out, op.type in supported, [t.name for t in op.outputs]))
+    return res_all
 
 
 def squash_ws(s):
@@ -971,8 +1047,28 @@ def doc_oracle(sentence, f, summary):
     return None
 
 
-def analyse(result, name, opcode):
-    """one compiled boundary network -> dict(verdict fields) ; never raises for a well-formed result"""
+def analyse_all(result, name, opcode):
+    """the operator under test first, then every other operator of the source network (role "neighbour"): both halves of
+    the property are decided for each of them"""
+    occ = 0
+    if "#" in opcode:
+        opcode, occ = opcode.split("#")[0], int(opcode.split("#")[1])
+    src_ops = tflsum.summarise(result["job"]["tflite"])["subgraphs"][0]["operators"]
+    tgt = [i for i, o in enumerate(src_ops) if o["opcode"] == opcode]
+    ti = tgt[occ] if len(tgt) > occ else None
+    infos = [analyse(result, name, opcode, ti)]
+    if result["status"] == "ok" and ti is not None:
+        for i, o in enumerate(src_ops):
+            if i != ti:
+                a = analyse(result, name, o["opcode"], i)
+                a["role"] = "neighbour"
+                a["op_index"] = i
+                infos.append(a)
+    return infos
+
+
+def analyse(result, name, opcode, ti=None):
+    """one operator of one compiled boundary network -> dict(verdict fields) ; never raises for a well-formed result"""
     try:
         from checks import c11
     except ImportError:
@@ -982,10 +1078,12 @@ def analyse(result, name, opcode):
     s0 = src["subgraphs"][0]
     tgt = [i for i, o in enumerate(s0["operators"]) if o["opcode"] == opcode]
     info = dict(net=name, opcode=opcode, accelerator=result["job"]["args"][1], status=result["status"])
-    if not tgt:
+    if ti is None and not tgt:
         info["error"] = "source network has no %s" % opcode
         return info
-    ti = tgt[0]
+    if ti is None:
+        ti = tgt[0]
+    out_names = [s0["tensors"][t]["name"] for t in s0["operators"][ti]["outputs"]]
     listed = report_lines_for(opcode)
     info["in_report"] = listed is not None
     if opcode in (MX, AV):
@@ -997,7 +1095,7 @@ def analyse(result, name, opcode):
             info["ofm_hw"] = list(pf["ofm"]["shape"][1:3])
         except Exception:
             pass
-    real, type_supported, _ = eval_listed_real(path, opcode)
+    real, type_supported, _ = eval_listed_real(path, opcode, out_names[0] if out_names else None)
     facts = op_facts(s0, s0["operators"][ti])
     rows = []
     if listed is not None and real is not None:
@@ -1057,11 +1155,22 @@ def analyse(result, name, opcode):
                         (not ta["data_len"] and psi.get(a) != b):
                     why = "%s tensor %s differs from the source (name/shape/type/quantisation/data or wiring)" % (kind[:-1], ta["name"])
         info["cpu_changed"] = why
-    elif any(o["opcode"] == opcode for o in o0["operators"]):
+    elif any(o["opcode"] == opcode and k not in phi for k, o in enumerate(o0["operators"])):
         info["placement"] = "cpu"
         info["cpu_changed"] = "an operator %s is present in the output but does not match the source operator" % opcode
     elif has_npu:
+        # absent from the CPU operators: accelerated, provided that whatever is still visible of its result in the output
+        # model comes out of an ethos-u operator (an operator that merely vanished is neither accelerated nor on the CPU)
         info["placement"] = "npu"
+        names = {t["name"]: k for k, t in enumerate(o0["tensors"])}
+        for nm in out_names:
+            k = names.get(nm)
+            if k is None:
+                continue
+            prod = [o for o in o0["operators"] if k in o["outputs"]]
+            if prod and not all(o["opcode"] == "CUSTOM" and o["custom_code"] == "ethos-u" for o in prod):
+                info["placement"] = "removed"
+                info["removed_detail"] = "its result %s is produced by %s" % (nm, [o["custom_code"] or o["opcode"] for o in prod])
     else:
         info["placement"] = "removed"
     return info
@@ -1121,7 +1230,10 @@ def classify(a):
     v = classify0(a)
     if v is None:
         return None
-    return pool_items(a, v[0]), v[1]
+    key = pool_items(a, v[0])
+    if a.get("role") == "neighbour":
+        key.update({"role": "neighbour", "opcode": a["opcode"], "op_index": a["op_index"]})
+    return key, v[1]
 
 
 def classify0(a):
@@ -1136,7 +1248,10 @@ def classify0(a):
                 "compiler crashed (%s) on an operator %s: %s" % (a.get("crash"), "for which every listed constraint holds" if a["doc_all"]
                                                                  else "that violates listed constraint(s) %s and had to stay on the CPU" % (a["failing_doc"] or a["failing_real"] or a["raising"]), net))
     if a["placement"] == "removed":
-        return ({"kind": "removed", "net": net}, "operator is neither in an ethos-u operator nor on the CPU in the output (%s)" % net)
+        return ({"kind": "removed", "net": net, "opcode": a["opcode"], "all_listed_hold": bool(a["doc_all"])},
+                "%s %s is neither in an ethos-u operator nor a CPU operator of the output%s (net %s)" % (
+                    a["opcode"], "for which every listed constraint holds" if a["doc_all"] else "(violating a listed constraint)",
+                    ": " + a["removed_detail"] if a.get("removed_detail") else "", net))
     if a["placement"] == "npu" and not a["doc_all"]:
         fr = a["failing_real"]
         con = (fr or a["failing_doc"] or [None])[0]
@@ -1151,7 +1266,9 @@ def classify0(a):
                 "%s stays on the CPU although every constraint the report lists for it holds (%s%s; net %s)" % (
                     a["opcode"], cause, " %s" % con if con else "", net))
     if a["placement"] == "cpu" and a.get("cpu_changed"):
-        return ({"kind": "cpu_operator_changed", "net": net}, "CPU-resident %s was modified: %s (net %s)" % (a["opcode"], a["cpu_changed"], net))
+        return ({"kind": "cpu_operator_changed", "net": net, "opcode": a["opcode"]},
+                "CPU-resident %s (violating %s) did not stay unchanged: %s (net %s)" % (
+                    a["opcode"], (a["failing_doc"] or a["failing_real"] or ["a listed constraint"])[0], a["cpu_changed"], net))
     return None
 
 
@@ -1192,7 +1309,8 @@ def run(tier):
              "the sentence the report prints for %s and the predicate the compiler enforces differ: parameters %s -> documented %s, enforced %s" % (
                  name, json.dumps(d["params"])[:160], d["documented"], d["real"]))
     # (c) placement
-    nets = list(NETS)
+    nets = list(NETS) + pair_nets()
+    n_fixed = len(nets)
     if tier == "thorough":
         nets += random_nets(random.Random("c16rnd/%d" % vlib.seed()), 150)
     jobs = []
@@ -1213,7 +1331,9 @@ def run(tier):
             os.replace(path + ".tmp%d" % os.getpid(), path)
         meta[name] = (opcode, what)
         if tier == "thorough":
-            accs = THOROUGH_ACCS if i < len(NETS) else [rot[i % 6], rot[(i + 3) % 6]]
+            accs = THOROUGH_ACCS if i < n_fixed else [rot[i % 6], rot[(i + 3) % 6]]
+        elif name.startswith("pair_") and name.split("_")[-1] in ("logistic", "tanh", "swish", "relu"):
+            accs = THOROUGH_ACCS   # LUT fusing depends on the accelerator's SHRAM layout: all six (relu: leaky_relu)
         else:
             accs = [rot[i % 6]] + ([rot[(i + 3) % 6]] if i % 5 == 0 else [])
         for acc in accs:
@@ -1225,6 +1345,7 @@ def run(tier):
     samples = []
     analysed = 0
     per_constraint = collections.Counter()
+    operators_judged = [0]
     for r in results:
         name = r["job"]["family"][4:]
         opcode, what = meta[name]
@@ -1232,11 +1353,18 @@ def run(tier):
             placed["timeout"] += 1
             continue
         try:
-            a = analyse(r, name, opcode)
+            infos = analyse_all(r, name, opcode)
         except Exception as ex:
             if len(res.notes) < 5:
                 res.notes.append("analysis of %s failed: %r" % (name, ex))
             continue
+        a = infos[0]
+        for nb in infos[1:]:
+            operators_judged[0] += 1
+            v = classify(nb)
+            if v:
+                viol(v[0], {"analysis": nb, "probe": what, "network": r["job"]["tflite"], "args": r["job"]["args"]}, "C16: " + v[1])
+        operators_judged[0] += 1
         analysed += 1
         placed[a["placement"]] += 1
         if a.get("doc_all"):
@@ -1254,15 +1382,16 @@ def run(tier):
                        "replay_cmd": "cd /verif && PYTHONPATH=%s /venv/bin/python -m ethosu.vela %s --output-dir /verif/build/c16replay %s" % (
                            vlib.REPO, r["job"]["tflite"], " ".join(r["job"]["args"]))}, "C16: " + whatv)
     res.cov.update({
-        "programs": analysed, "placement": dict(placed), "networks": len(nets), "compilations": len(jobs),
+        "programs": analysed, "operators_judged": operators_judged[0], "placement": dict(placed), "networks": len(nets), "compilations": len(jobs),
         "networks_all_listed_hold": inside, "networks_some_listed_fails": outside, "failing_constraint_histogram": dict(per_constraint),
         "correspondence": cstats, "model_vs_real_differences": len(model_diffs),
         "documented_vs_enforced_differences": sorted(doc_diffs), "report_rows_checked": rrows, "report_problems": len(rproblems),
         "generated_vs_checked_in_report": report_vs_checked_in()[:12],
         "evaluations": cstats["cases"] + analysed + rrows, "distinct_nontrivial": cstats["distinct"] + len(nets),
         "rule": "correspondence: distinct (constraint, real answer, parameters) triples evaluated on real Operation objects by the real "
-                "constraint methods and by the extracted translated predicates; placement: distinct boundary networks, each compiled "
-                "for 1-2 (thorough: 6) accelerators, rotating over the six, judged by the documented reading of every listed sentence (real constraint "
+                "constraint methods and by the extracted translated predicates; placement: distinct boundary networks (single operators, operator + "
+                "neighbour, and <violating producer> -> <conforming follower> pairs; the pairs on all six accelerators), each compiled "
+                "for 1-2 (thorough: 6) accelerators, rotating over the six, every operator of every network judged by the documented reading of every listed sentence (real constraint "
                 "function where no numeric reading exists) against the operator's presence in the output model",
         "samples": samples or [{"note": "none"}],
         "disagreements_checked": len(model_diffs) + len(doc_diffs),
